@@ -13,9 +13,17 @@ seeds = []
 for d in sorted(glob.glob(f'{V}/seeded/*/meta.json')):
     m = json.load(open(d)); sid = os.path.basename(os.path.dirname(d))
     seeds.append((sid, m))
-seed_rows = "\n".join(f"| {sid} | {m['property']} | {cell(m['summary'], 160)} | {cell(m['needs'], 170)} | {cell(m['detected_by'], 300)} |" for sid, m in seeds)
-def first_time(r): return sum(1 for sid, m in seeds if sid.endswith(f'-{r}') and m['detected_by'].startswith('caught'))
+seed_rows = "\n".join(f"| {sid} | {m['property']} | {cell(m.get('summary', '(see notes.md)'), 160)} | {cell(m.get('needs', ''), 170)} | {cell(m.get('detected_by', 'PENDING: missed by the committed check; strengthening in progress'), 300)} |" for sid, m in seeds)
+def first_time(r): return sum(1 for sid, m in seeds if sid.endswith(f'-{r}') and m.get('detected_by', '').startswith('caught'))
 def total(r): return sum(1 for sid, m in seeds if sid.endswith(f'-{r}'))
+rounds = sorted({int(sid.split('-')[1]) for sid, m in seeds})
+rounds_line = ", ".join(f"round {r}: {first_time(r)}/{total(r)}" for r in rounds)
+pending = sum(1 for sid, m in seeds if 'detected_by' not in m)
+benign = []
+for d in sorted(glob.glob(f'{V}/benign/*/meta.json')):
+    benign.append((os.path.basename(os.path.dirname(d)), json.load(open(d))))
+benign_rows = "\n".join(f"| {bid} | {', '.join(m['touches'])[:60]} | {cell(m['summary'], 150)} | {', '.join(k for k in sorted(m['checks_run_quick']))} | {cell(m['verdict'], 80)} |" for bid, m in benign)
+n_benign_ok = sum(1 for b, m in benign if m['verdict'].startswith('benign'))
 nfix = len(fixed)
 sec = f"""## 10. Implementation status, results and adjudications (written after the code)
 
@@ -104,6 +112,13 @@ the failing case (see `known_findings.json`); a violation outside those predicat
   before any verdict).  **C07** non-degeneracy predicate extended (inner side running into a
   neighbouring fitted bend).  **C20** harness hashed the key pointer instead of the string
   (overload `hash(T)` vs `hash(const char*)`).
+* **C15, closed primitives** (found by the benign-change experiment, 10.6 d): the ellipse/slice judgement assumed
+  that a plain slice starts at its centre.  The property fixes neither the starting vertex nor the winding of
+  ellipses, rings, slices, racetracks or fillet outputs; the judgement now tries every cut of the analytic outline at
+  vertex 0 and both directions and accepts if one consistent walk exists.
+* **C06, curved paths under magnification**: a path with circular bends that is polygonised after being magnified
+  has more arc points than its magnified leaf outline; for that leaf kind outlines are compared as closed polylines
+  within 2.5 path tolerances times the total magnification instead of vertex by vertex.
 * Observations deliberately NOT demanded (counted in evidence): GDSII property order reversal on
   load (C01), -0.0 reading back as +0.0 and double rounding of ratio reals with operands above
   2^53 (C19), unreduced Hobby constraint angles (C15), `element_center` index slip for tapered
@@ -111,12 +126,12 @@ the failing case (see `known_findings.json`); a violation outside those predicat
 
 ### 10.5 Bounds actually completed (see evidence files for measured counts)
 
-Quick tiers complete in 7-80 s each on this machine (`vp check`: every registered quick command on a
+Quick tiers complete in 7-80 s each on this machine when run alone (`vp check`: every registered quick command on a
 fresh copy, a few minutes in total, nothing needed attention).  `tools/run_all.sh thorough` ran every
-thorough tier end to end on the final harnesses: all exhaustive within their soft deadline except
-C06 and C09, whose spaces were then reduced (10-13 min each for C02, C05, C08, C12; 3-7 min for C01,
-C07, C10, C11, C13, C14, C15, C16; under 3 min for the rest).  A bound that hits the soft deadline is
-reported `complete=false` / `exhaustive=false` and the check still exits 0.
+thorough tier end to end (twice; the second sweep after the C06/C09 spaces had been reduced because they hit the
+soft deadline in the first): all exit 0 and all bounds complete - about 24 min for C06, 13-25 min for C02, C05 and C08
+(measured while other jobs loaded the machine), 5-12 min for C03, C07, C09, C12, C13, C16, C20, under 5 min for the
+rest.  A bound that hits the soft deadline is reported `complete=false` / `exhaustive=false` and the check still exits 0.
 
 ### 10.6 Detection evidence
 
@@ -143,10 +158,11 @@ mutant: Hoare partition stays correct), C09/C06/C18: the reverted fixes of (a).
 (`/verif/seeded/<id>/`: `patch.diff`, `demo.cpp`, `notes.md`, `meta.json`).  Each was confirmed with
 `tools/seed_verify.sh`: the demonstration exits 0 on HEAD and non-zero with the patch, the 18
 pinned tests (examples target rebuilt) pass with the patch, then the property's quick check was run
-against the patched tree.  Three rounds of 20 (rounds 2 and 3 asked for a different function and
-mechanism than the earlier rounds): caught at once {first_time(1)}/{total(1)}, {first_time(2)}/{total(2)}, {first_time(3)}/{total(3)}.  Every miss
-exposed a hole in an alphabet; the check was strengthened until the change was caught and
-re-verified with the same script, so all {len(seeds)} are caught by the committed checks:
+against the patched tree.  Rounds of 20 (one change per property; from round 2 on the agents were told which functions
+earlier rounds had used and asked for a different function and mechanism, later rounds also for defects that need a
+history, two cooperating sites, a boundary value or a rarely used option).  Caught at once by the check as it stood:
+{rounds_line}.  Every miss exposed a hole in an alphabet; the check was strengthened until the change was caught and
+re-verified with the same script.  Status of all {len(seeds)} changes ({pending} still being worked on are marked pending):
 
 | id | property | change | needs | outcome |
 |---|---|---|---|---|
@@ -160,8 +176,37 @@ arguments* (C17), *partial circles* (C02), *boundary value counts of a format fi
 property values), *the heavy members of a family also in the quick tier* (C01, C07: more than one
 XY record), *degenerate lattice shapes* (C09: one column / one row), *containers built by
 histories, not only by insertion* (C16 remap tables), *objects with a transform history before the
-operation under test* (C01, C11: mirrored / width-preserving scaled paths), *arguments that are
-usually zero* (C08: arc rotation) and *files whose parts were written at different times* (C17).
+operation under test* (C01, C11, C02, C04: mirrored / scaled paths before saving), *arguments that are
+usually zero* (C08: arc rotation), *files whose parts were written at different times* (C17),
+*save histories on one object* (C04: write, edit, write again), *both windings of every input polygon*
+(C13), *redundant collinear vertices and every start vertex* (C15 fillets), *multi-point overloads as
+predecessors of continuation sections* (C15), *boundary values of a number format* (C01/C03: exact powers
+of 16 in 8-byte reals), *property lists built by overwriting* (C03), *interfaces that build the same object
+another way* (C07: command strings, also stopping early), *curved content under magnifying references*
+(C06: circular bends) and *dependency graphs in which a shared node precedes a unique one* (C17).
+
+**(d) Benign changes: looking for false alarms.**  The reverse experiment: 20 fresh sub-agents (property
+text and a scratch worktree only, `tools/benign_prompt.py`) each produced three realistic maintenance
+changes under which their property still HOLDS but something a careless checker might hard-wire changes
+(vertex order / start vertex, number of arc points within tolerance, order of pieces, records or cells,
+which legal encoding is written, hash function, load factor, buffer growth, message texts, error code among
+justified ones, refactorings).  `tools/benign_verify.sh` applies each to a scratch worktree and runs the
+quick check of the property itself and (`tools/benign_cross.sh`) of every other property whose code the
+patch touches.  {len(benign)} changes (`/verif/benign/<id>/`: `patch.diff`, `notes.md`, `meta.json`):
+{n_benign_ok} raised no alarm in any check run on them.  The others:
+
+* `benign/C15-3` (slices emitted arc-first, centre last): C15 reported 372 `primitive.ellipse/off-curve`
+  violations - a FALSE ALARM of the check (it assumed where the vertex list of a slice starts).  Corrected:
+  the judgement of every closed primitive is now invariant under cyclic rotation and winding (10.4);
+  an invariance self-check re-judges every 4th primitive rotated and reversed.
+* `benign/C02-3` and `benign/C03-2` (hash-table load factor 0.5 -> 0.7): C16 and C20 report a hang.  This is a
+  TRUE alarm: `Library::top_level` sizes its maps by hand (`resize(count * 2)`), so with a higher load factor a
+  map of capacity 2 fills completely and `Map::get` of an absent name never terminates.  The change is not benign
+  for C16/C20 (its authors only argued about their own property); kept as detection evidence.
+
+| id | touches | change | quick checks run | verdict |
+|---|---|---|---|---|
+{benign_rows}
 
 ### 10.7 Properties outside the technique
 
